@@ -16,6 +16,34 @@ CHECKS = {
                      'all truncations, seeded mutations, authentic-but-malformed encrypted bodies; atheris in the '
                      'thorough tier). Finds crashes/hangs reachable by small structural edits; does not prove absence.',
                 note='line budget instead of wall-clock; harness-side AES cross-checked against pure-Python reference'),
+    'C01': dict(level='exploration', design='3 C01',
+                technique='Hypothesis-generated configurations and negotiation histories through the real main_loop; '
+                          'differential oracle = reference wire observer (RFC key schedule) + model kernels decoded with <linux/xfrm.h>',
+                text='Generated pairs of compatible configurations and sequences of successful negotiations (incl. COOKIE, '
+                     'INVALID_KE_PAYLOAD, PFS, IKE rekey, responder-initiated and crossing exchanges); both kernels must hold '
+                     'the same SA records and these must equal what an independent observer derives from the wire.',
+                note='DH secrets taken from recorded DH objects; lifetimes excluded'),
+    'C04': dict(level='exploration', design='3 C04',
+                technique='Hypothesis differential testing of prf/prf+/SKEYSEED/SK_*/KEYMAT against an independent RFC 7296 '
+                          'key schedule; DH against pure-Python arithmetic over recomputed RFC 3526 / RFC 5903 groups',
+                text='Function-level equality with independent references over all PRF/INTEG/key-length tuples, nonce and '
+                     'secret length classes (leading zeros by construction), all 8 DH groups with crafted peer values, plus '
+                     'end-to-end runs through every group.',
+                note='primes recomputed from the pi formula; curve constants self-checked'),
+    'C05': dict(level='exploration', design='3 C05',
+                technique='grammar-based message generation, differential against an independent RFC 7296 section 3 '
+                          'encoder/decoder, round-trip and idempotence, metamorphic (injectivity) check of the dump',
+                text='Library bytes equal reference bytes for generated messages (clear and encrypted), parse inverts, '
+                     'idempotence on accepted mutated inputs, unknown/critical/trailing handling, dump names and shows '
+                     'every field.',
+                note='critical bit varied in the parse direction only'),
+    'C07': dict(level='exploration', design='3 C07',
+                technique='round-trip against reference SK protect/unprotect (own HMAC, pure-Python AES), exhaustive '
+                          'byte x bit tamper sweeps of representative messages, generated tampering elsewhere',
+                text='Every residue mod 16, 6 cipher/integrity pairs; ICV, padding and ciphertext layout recomputed by '
+                     'the reference; all single-bit flips of one message per exchange type, truncations, extensions and '
+                     'wrong keys must raise a protocol error; emitted post-INIT traffic is SK-only.',
+                note='bit-flip sweeps are exhaustive for the representative messages only'),
 }
 
 NOT_YET = 'check not built yet in this session (planned, see DESIGN.md section 8)'
